@@ -19,6 +19,7 @@ from vlib import c15util as U
 from vlib.common import sha, Reporter, build_tool, run_tool, workdir, MachineryError, pmap, BACKENDS, default_configs, BUILD, REPO
 
 PER_FILE = 50
+FAMS = ["prelude", "a", "b", "c", "d", "e"]
 TIMEOUT = 30
 BUDGET = {"quick": 105, "thorough": 900}      # wall seconds after which no new batch is started (exhaustive := false)
 REDUCE_CAP = 120                                 # tool runs per reduced crash group
@@ -62,9 +63,15 @@ _phase_cache = {}
 _PANIC_RE = re.compile(r"panicked at ([^\n]*?):(\d+):(\d+):\n([^\n]*)")
 
 
-def _bump():
+_kinds = {}
+
+
+def _bump(kind=None):
     with _lock:
-        _runs[0] += 1
+        if kind is None:
+            _runs[0] += 1
+        else:
+            _kinds[kind] = _kinds.get(kind, 0) + 1
 
 
 def norm_file(f):
@@ -87,7 +94,7 @@ class Verdict(object):
     __slots__ = ("kind", "ctxs", "file", "line", "msg", "stderr", "rc", "cmd")
 
 
-def judge(p, out_dir):
+def judge(p, out_dir, check_files=True):
     v = Verdict()
     v.rc, v.stderr, v.cmd = p.returncode, p.stderr, " ".join(p.args) if isinstance(p.args, (list, tuple)) else str(p.args)
     v.ctxs, v.file, v.line, v.msg = [], None, None, None
@@ -103,7 +110,7 @@ def judge(p, out_dir):
             v.file, v.msg = "-", "exit status %s without panic message: %s" % (p.returncode, (err.strip().splitlines() or [""])[-1][:80])
         return v
     if p.returncode == 0:
-        if not (os.path.isdir(out_dir) and any(fs for _, _, fs in os.walk(out_dir))):
+        if check_files and not (os.path.isdir(out_dir) and any(fs for _, _, fs in os.walk(out_dir))):
             raise MachineryError("UNDECIDED: exit 0 but no file written: %s" % v.cmd)
         v.kind = "ok"
         return v
@@ -119,42 +126,44 @@ def judge(p, out_dir):
 
 
 class Runner(object):
-    """runs subsets of items for one (backend, config) in one scratch directory"""
+    """runs subsets of items for one (backend, config) in one scratch directory.  The output directory is reused by the
+    runs of one Runner (creating and unlinking files is what costs time on this disk; overwriting does not): `exit 0 with
+    files written` is therefore verified on the first successful run into the fresh directory, later runs overwrite."""
 
     def __init__(self, backend, cfg, d, suspects=None, cls=None):
         self.backend, self.cfg, self.d = backend, cfg, d
         self.n = 0
-        self.suspects = suspects if suspects is not None else set()   # coarse classes / iids already seen crashing on this backend (scheduling only)
+        self.suspects = suspects if suspects is not None else set()   # coarse classes already seen crashing on this backend (scheduling only)
         self.cls = cls or {}
+        self.out = os.path.join(d, "out")
+        self.entry = os.path.join(d, "in.rs")
+        self.fresh = True
         os.makedirs(d, exist_ok=True)
 
-    def run_source(self, src, keep=False):
+    def run_source(self, src):
         self.n += 1
-        entry = os.path.join(self.d, "in%d.rs" % self.n)
-        out = os.path.join(self.d, "out%d" % self.n)
-        with open(entry, "w") as fh:
+        with open(self.entry, "w") as fh:
             fh.write(src)
         _bump()
-        p = run_tool(self.backend, entry, out, configs=self.cfg, timeout=TIMEOUT)
-        try:
-            v = judge(p, out)
-        finally:
-            shutil.rmtree(out, ignore_errors=True)
-            if not keep:
-                os.remove(entry)
+        p = run_tool(self.backend, self.entry, self.out, configs=self.cfg, timeout=TIMEOUT)
+        v = judge(p, self.out, self.fresh)
+        _bump(v.kind)
+        if v.kind == "ok":
+            self.fresh = False
         return v
 
     def run_items(self, items):
-        return self.run_source(U.build_source(items))
+        return self.run_source(U.build_source(items, prune=True))
+
+    def close(self):
+        shutil.rmtree(self.d, ignore_errors=True)
 
     def backtrace(self, src):
         """same command line as run_tool, with RUST_BACKTRACE=1: which phase did the panic happen in?"""
-        self.n += 1
-        entry = os.path.join(self.d, "in%d.rs" % self.n)
-        out = os.path.join(self.d, "out%d" % self.n)
+        entry = os.path.join(self.d, "bt.rs")
         with open(entry, "w") as fh:
             fh.write(src)
-        cmd = [build_tool(), self.backend, out, "--entry", entry, "-s", "--config-file", os.path.join(BUILD, "nonexistent-config.toml")]
+        cmd = [build_tool(), self.backend, self.out, "--entry", entry, "-s", "--config-file", os.path.join(BUILD, "nonexistent-config.toml")]
         for c in self.cfg:
             cmd += ["--config", c]
         env = dict(os.environ)
@@ -163,12 +172,9 @@ class Runner(object):
         _bump()
         try:
             p = subprocess.run(cmd, env=env, timeout=TIMEOUT, stdout=subprocess.PIPE, stderr=subprocess.PIPE, text=True, errors="replace")
-            err = p.stderr
+            return p.stderr
         except subprocess.TimeoutExpired:
-            err = "TIMEOUT"
-        shutil.rmtree(out, ignore_errors=True)
-        os.remove(entry)
-        return err
+            return "TIMEOUT"
 
 
 def phase_of(bt, file):
@@ -213,11 +219,13 @@ def attribute(ctxs, items):
     return hit, bad
 
 
-def settle(rn, items, out, crashes):
-    """judge every item of `items` under rn's (backend, config); out: iid -> outcome; crashes: list of crash records"""
+def settle(rn, items, out, crashes, known=None):
+    """judge every item of `items` under rn's (backend, config); out: iid -> outcome; crashes: list of crash records.
+    known: verdict already established for exactly this item set (saves the run)"""
     cur = list(items)
     while cur:
-        v = rn.run_items(cur)
+        v = known if (known is not None and len(cur) > 1) else rn.run_items(cur)
+        known = None
         if v.kind == "ok":
             for it in cur:
                 out[it.iid] = "ok"
@@ -249,7 +257,7 @@ def settle(rn, items, out, crashes):
             ph = _phase_cache.get(pk)
             if ph is None:
                 # the phase of a panic site is found once, from a backtrace (doubles as a determinism re-run)
-                bt = rn.backtrace(U.build_source([it]))
+                bt = rn.backtrace(U.build_source([it], prune=True))
                 m = _PANIC_RE.search(bt)
                 f2, m2 = (norm_file(m.group(1)), m.group(4)) if m else ("-", "timeout after %d s" % TIMEOUT if bt == "TIMEOUT" else None)
                 if (f2, norm_msg(m2 or "")) != (v.file, norm_msg(v.msg or "")) and not (v.file == "-" and not m):
@@ -277,7 +285,9 @@ def settle(rn, items, out, crashes):
         a, b = cur[:half], cur[half:]
         n0 = len(crashes)
         settle(rn, a, out, crashes)
-        settle(rn, b, out, crashes)
+        # a clean first half means the (independent) second half holds the crash: no need to run it as a whole again
+        a_clean = len(crashes) == n0 and all(out.get(it.iid) in ("ok", "diag", "rejected") for it in a)
+        settle(rn, b, out, crashes, known=v if a_clean else None)
         if len(crashes) == n0:
             # neither half crashes on its own: the crash needs a combination of items; shrink it greedily
             combo = list(cur)
@@ -304,7 +314,7 @@ _red_cache = {}
 
 
 def same_crash(rn, item_or_src, file, nmsg, prune=False, fresh_run=False):
-    src = item_or_src if isinstance(item_or_src, str) else U.build_source(item_or_src if isinstance(item_or_src, list) else [item_or_src], prune=prune)
+    src = item_or_src if isinstance(item_or_src, str) else U.build_source(item_or_src if isinstance(item_or_src, list) else [item_or_src], prune=True)
     ck = (rn.backend, tuple(rn.cfg), src)
     v = None if fresh_run else _red_cache.get(ck)
     if v is None:
@@ -353,7 +363,7 @@ def run(tier):
     variants = config_variants(tier)
     batches = [items[i:i + PER_FILE] for i in range(0, len(items), PER_FILE)]
     print("C15: %d items (%s) in %d batches x %d (backend, config) variants" % (
-        len(items), ", ".join("%s=%d" % (f, sum(1 for i in items if i.fam == f)) for f in "abcde"), len(batches), len(variants)))
+        len(items), ", ".join("%s=%d" % (f, sum(1 for i in items if i.fam == f)) for f in FAMS), len(batches), len(variants)))
 
     # one job = one batch on one backend, all config variants of that backend one after the other (the accepted set of the
     # first variant is what the further variants are run on: lowering does not read js.abi / kotlin.* / lib_name)
@@ -376,7 +386,7 @@ def run(tier):
             rn = Runner(b, cfg, os.path.join(wd, "%s_%d_%d" % (b, vi, bi)), suspects[b], cls)
             out, crashes = {}, []
             settle(rn, cur, out, crashes)
-            shutil.rmtree(rn.d, ignore_errors=True)
+            rn.close()
             res.append((b, label, bi, out, crashes))
             if vi == 0:
                 first = out
@@ -393,6 +403,7 @@ def run(tier):
         return res
 
     results = pmap(do_job, jobs)
+    stage1 = (_runs[0], dict(_kinds), round(time.time() - t0, 1))
 
     # ---- tallies
     counts = {}          # (backend,label) -> outcome -> n
@@ -450,39 +461,63 @@ def run(tier):
                 g["iids"].add(pname)
                 if g["first"] is None:
                     g["first"] = {"iid": None, "file": v.file, "line": v.line, "msg": v.msg, "stderr": v.stderr[-1500:], "cmd": v.cmd, "src": src}
-        shutil.rmtree(rn.d, ignore_errors=True)
+        rn.close()
 
-    # ---- reduce one representative per raw group, then merge groups on the reduced key
-    def do_reduce(kv):
-        (b, file, nmsg, rawc), g = kv
-        cr = g["first"]
-        rn = Runner(b, g["cfg"], os.path.join(wd, "red_%s_%s" % (b, sha("|".join((file, nmsg, rawc))))))
-        if cr.get("src") is not None:          # missing-config probe: the program is irrelevant, keep the smallest
-            src, cls = cr["src"], rawc
-            v = same_crash(rn, src, file, nmsg)
-        elif "combo" in cr:
-            its = [by_id[i] for i in cr["combo"]]
-            src, cls = U.build_source(its), rawc
-            v = same_crash(rn, src, file, nmsg)
-        else:
-            red = reduce_item(rn, by_id[cr["iid"]], file, nmsg)
-            cls = U.item_class(red)
-            src = U.build_source([red], prune=True)
-            v = same_crash(rn, src, file, nmsg)
-            if v is None:
-                src = U.build_source([red])
-                v = same_crash(rn, src, file, nmsg)
-        v2 = same_crash(rn, src, file, nmsg, fresh_run=True) if v is not None else None
-        shutil.rmtree(rn.d, ignore_errors=True)
-        if v is None or v2 is None:
-            raise MachineryError("crash of %s on %s did not reproduce identically on re-run (%s | %s)" % (rawc, b, file, nmsg))
-        return (b, file, nmsg, cls), {"program": src, "cmd": v.cmd, "stderr": v.stderr[-1500:], "line": v.line, "msg": v.msg, "raw": rawc, "g": g}
+    # ---- per panic site (backend, file, message): reduce group representatives, smallest first; a group whose coarse
+    # class contains every part of an already reduced witness of the same site is counted under that witness' key
+    # (it crashes at the same site with the same message; only the label is inherited, no tool run is spent on it)
+    sites = {}
+    for (b, file, nmsg, rawc), g in raw_groups.items():
+        sites.setdefault((b, file, nmsg), []).append((rawc, g))
 
-    reduced = pmap(do_reduce, sorted(raw_groups.items(), key=lambda kv: kv[0]))
+    def do_site(kv):
+        (b, file, nmsg), groups = kv
+        done = []      # [(coarse part set, class, info)]
+        res = []
+
+        def rank(x):
+            cr = x[1]["first"]
+            n = len(U.coarse_parts(by_id[cr["iid"]])) if cr.get("iid") is not None and "combo" not in cr else 0
+            return (n, len(x[0]), x[0])
+        for rawc, g in sorted(groups, key=rank):
+            cr = g["first"]
+            plain = cr.get("src") is None and "combo" not in cr
+            if plain:
+                parts = set(U.coarse_parts(by_id[cr["iid"]]))
+                hit = [d for d in done if d[0] and d[0] <= parts]
+                if hit:
+                    res.append(((b, file, nmsg, hit[0][1]), {"inherit": True, "raw": rawc, "g": g}))
+                    continue
+            rn = Runner(b, g["cfg"], os.path.join(wd, "red_%s_%s" % (b, sha("|".join((file, nmsg, rawc))))))
+            red = None
+            if cr.get("src") is not None:          # missing-config probe: the program is irrelevant, keep the smallest
+                src, cl = cr["src"], rawc
+            elif "combo" in cr:
+                src, cl = U.build_source([by_id[i] for i in cr["combo"]], prune=True), rawc
+            else:
+                red = reduce_item(rn, by_id[cr["iid"]], file, nmsg)
+                cl = U.item_class(red)
+                src = U.build_source([red], prune=True)
+            v = same_crash(rn, src, file, nmsg)
+            v2 = same_crash(rn, src, file, nmsg, fresh_run=True) if v is not None else None
+            rn.close()
+            if v is None or v2 is None:
+                raise MachineryError("crash of %s on %s did not reproduce identically on re-run (%s | %s)" % (rawc, b, file, nmsg))
+            if red is not None:
+                done.append((set(U.coarse_parts(red)), cl, None))
+            res.append(((b, file, nmsg, cl), {"program": src, "cmd": v.cmd, "stderr": v.stderr[-1500:], "line": v.line, "msg": v.msg, "raw": rawc, "g": g}))
+        return res
+
+    stage2 = (_runs[0], round(time.time() - t0, 1))
+    reduced = [x for r in pmap(do_site, sorted(sites.items(), key=lambda kv: -len(kv[1]))) for x in r]
+    print("C15: enumeration %s; missing-config probes done at %s; reduction of %d crash groups at %d sites done at %s" % (
+        stage1, stage2, len(raw_groups), len(sites), (_runs[0], round(time.time() - t0, 1))))
     final = {}
-    for key, info in reduced:
+    for key, info in sorted(reduced, key=lambda x: (x[0], x[1].get("inherit", False))):
+        if key not in final and info.get("inherit"):
+            raise MachineryError("internal: inherited crash key without a witness: %s" % (key,))
         f = final.setdefault(key, {"info": info, "inputs": set(), "labels": set(), "raw_classes": []})
-        if len(info["program"]) < len(f["info"]["program"]):
+        if not info.get("inherit") and len(info["program"]) < len(f["info"]["program"]):
             f["info"] = info
         f["inputs"] |= set(info["g"]["iids"])
         f["labels"] |= info["g"]["labels"]
@@ -529,7 +564,7 @@ def run(tier):
         "exhaustive": exhaustive,
         "distinct_outcomes": len(outcomes),
         "bound": {"tier": tier, "type_depth": 3 if tier == "thorough" else 2, "items": len(items),
-                  "families": dict((f, sum(1 for i in items if i.fam == f)) for f in "abcde"), "items_per_file": PER_FILE,
+                  "families": dict((f, sum(1 for i in items if i.fam == f)) for f in FAMS), "items_per_file": PER_FILE,
                   "variants": ["%s/%s" % (b, l) for b, l, _ in variants], "missing_config_variants": ["%s/%s" % (b, l) for b, l, _ in MISSING_CONFIG],
                   "batches_skipped_by_wall_budget": len(skipped), "128bit_ints": "excluded"},
         "tool_runs": _runs[0],
@@ -539,7 +574,7 @@ def run(tier):
         "panics_during_lowering_not_judged": lowering_panics,
         "samples": samples,
     }
-    print("C15: %d tool runs, %.1fs; per backend/config: %s" % (_runs[0], time.time() - t0, json.dumps(cov["per_backend"])))
+    print("C15: %d tool runs %s, %.1fs; per backend/config: %s" % (_runs[0], json.dumps(_kinds), time.time() - t0, json.dumps(cov["per_backend"])))
     if lowering_panics:
         print("C15: panics during lowering (outside the domain, tallied only): %s" % json.dumps(lowering_panics))
     shutil.rmtree(wd, ignore_errors=True)
@@ -560,7 +595,7 @@ def replay(path):
     build_tool()
     wd = workdir("C15-replay")
     rn = Runner(wit["backend"], wit["configs"], wd)
-    v = rn.run_source(wit["program"], keep=True)
+    v = rn.run_source(wit["program"])
     print("backend=%s configs=%s outcome=%s rc=%s" % (wit["backend"], wit["configs"], v.kind, v.rc))
     print(v.stderr[-1500:])
     if v.kind == "crash":
